@@ -53,22 +53,54 @@ def live(settings):
     return s
 
 
-def ref_features(sig, fs, f_range, settings, return_samples=None):
-    """Outcome of the functional single-signal analysis on fresh copies of everything."""
+def _ref_features_impl(sig, fs, f_range, kw, rs):
     from bycycle.features import compute_features
+    import warnings
+    warnings.simplefilter('ignore')
+    return outcome(compute_features, sig, fs, tuple(f_range), return_samples=rs, **kw)
+
+
+def ref_features(sig, fs, f_range, settings, return_samples=None):
+    """Outcome of the functional single-signal analysis on fresh copies of everything,
+    evaluated in a pristine fork (no call history)."""
+    from . import pristine
     kw = live(settings)
     rs = kw.pop('return_samples', True)
     if return_samples is not None:
         rs = return_samples
-    return outcome(compute_features, sig.copy(), fs, tuple(f_range), return_samples=rs, **kw)
+    return pristine.call('simcheck.ref:_ref_features_impl', sig.copy(), fs, tuple(f_range), kw, rs)
+
+
+def _ref_recompute_impl(df, th):
+    from bycycle.burst.utils import recompute_edges
+    return outcome(recompute_edges, df, th)
 
 
 def ref_recompute(df, thresholds, reduction):
     """Functional edge recomputation with every *_threshold lowered by `reduction`."""
-    from bycycle.burst.utils import recompute_edges
+    from . import pristine
     r = 0 if reduction is None else reduction
     th = {k: (v - r if k.endswith('_threshold') else v) for k, v in copy.deepcopy(thresholds).items()}
-    return outcome(recompute_edges, df.copy(), th)
+    return pristine.call('simcheck.ref:_ref_recompute_impl', df.copy(), th)
+
+
+def _ref_group_impl(ndim, sigs, fs, f_range, kw, axis, rs):
+    """Functional group call on fresh copies, n_jobs=1, default (fifo) schedule."""
+    from bycycle.group import compute_features_2d, compute_features_3d
+    from .simpool import Sim, Installed
+    from .rng import Tape
+    import warnings
+    warnings.simplefilter('ignore')
+    func = compute_features_2d if ndim == 2 else compute_features_3d
+    with Installed(Sim({'mode': 'fifo'}, Tape(0))):
+        return outcome(func, sigs, fs, tuple(f_range), compute_features_kwargs=kw, axis=axis,
+                       return_samples=rs, n_jobs=1)
+
+
+def ref_group(sigs, fs, f_range, kw, axis, rs):
+    from . import pristine
+    return pristine.call('simcheck.ref:_ref_group_impl', sigs.ndim, sigs.copy(), fs, tuple(f_range),
+                         copy.deepcopy(kw), axis, rs)
 
 
 class TqdmStub:
